@@ -1,6 +1,7 @@
 import RlboxModel.Casts
 import RlboxModel.Props.C04
 import RlboxModel.Props.C06Core
+import RlboxModel.Lemmas.CastLemmas
 /-!
 # C20 — Opaque wrappers and sandbox casts preserve bits, designation and taint
 Property theorems only.
@@ -41,6 +42,43 @@ theorem C20_cast_addr (s : Sbx) (hs : C04.Sbx.wf s) :
     (∀ cell rep, s.region.contains cell → sandboxPtrCast s.region.k (.tvol cell rep) = toApp s rep) := by
   refine ⟨fun _ => rfl, fun cell rep hc => ?_⟩
   exact (C04.C04_cell_relative s hs cell hc rep 0).1
+
+/-- `sandbox_static_cast<F>` of an integer to a floating-point type holds what the C++ cast yields: the
+source value (loaded and ABI-converted first when it lives in sandbox memory), rounded ONCE to the target's
+precision -/
+theorem C20_castf_value (abi : Abi) (to : FloatTy) (fr : BaseTy) (v : Int) :
+    sandboxStaticCastIF abi to fr (.tainted v) = some (intToFloat to v) ∧
+    ∀ g, sandboxStaticCastIF abi to fr (.tvol g) = (toApplication abi fr g).map (intToFloat to) :=
+  ⟨rfl, fun _ => rfl⟩
+
+/-- what "the C++ cast" is: integers that fit the significand are unchanged ... -/
+theorem C20_castf_exact (f : FloatTy) (v : Int) (h : v.natAbs < 2 ^ f.prec) : intToFloat f v = v := by
+  unfold intToFloat
+  rw [CastLemmas.roundSig_exact _ _ h]
+  split <;> omega
+
+/-- ... and any other integer becomes a neighbouring multiple of the unit in the last place `2^sh`, at most
+half a unit away (round to nearest; `roundSig` resolves ties to the even significand) -/
+theorem C20_castf_nearest (f : FloatTy) (n : Nat) (h : ¬ n < 2 ^ f.prec) :
+    2 ^ (bitLen n - f.prec) ∣ roundSig f.prec n ∧
+    roundSig f.prec n ≤ n + 2 ^ (bitLen n - f.prec - 1) ∧ n ≤ roundSig f.prec n + 2 ^ (bitLen n - f.prec - 1) :=
+  CastLemmas.roundSig_nearest f.prec n _ (fun hb => h ((CastLemmas.bitLen_le _ _).1 hb)) rfl
+
+/-- one rounding, not two: going through `double` first gives a different `float` for some 64-bit integers -/
+theorem C20_castf_single_rounding :
+    intToFloat .float (intToFloat .double (2 ^ 60 + 2 ^ 36 + 1)) ≠ intToFloat .float (2 ^ 60 + 2 ^ 36 + 1) := by decide
+
+/-- floating-point to integer: the fraction is discarded toward zero (the magnitude is the integer part of the
+magnitude, the sign is kept), and the cast is defined exactly when that integer is in range of the target -/
+theorem C20_float_to_int (to : BaseTy) (hb : to ≠ .bool) (x : Dy) :
+    x.trunc.natAbs = x.num.natAbs / 2 ^ x.k ∧ (0 ≤ x.num → 0 ≤ x.trunc) ∧ (x.num ≤ 0 → x.trunc ≤ 0) ∧
+    floatToInt to x = (if to.app.inRange x.trunc then some x.trunc else none) := by
+  have h0 : x.num = 0 → x.num.natAbs / 2 ^ x.k = 0 := by intro h; simp [h]
+  refine ⟨?_, ?_, ?_, by simp [floatToInt, hb]⟩ <;> unfold Dy.trunc <;>
+    generalize x.num.natAbs / 2 ^ x.k = q at * <;> split <;> omega
+
+example : intToFloat .float 16777217 = 16777216 ∧ intToFloat .float 16777219 = 16777220 ∧ intToFloat .double (2^63 - 1) = 2^63 := by decide
+example : floatToInt .int ⟨-7, 1⟩ = some (-3) ∧ floatToInt .uchar ⟨1025, 2⟩ = none ∧ floatToInt .bool ⟨1, 5⟩ = some 1 := by decide
 
 example : sandboxStaticCast abiA .uchar .int (.tainted 300) = some 44 := by decide
 example : sandboxStaticCast abiA .schar .ulong (.tvol 4294967295) = some (-1) := by decide
